@@ -216,7 +216,7 @@ class Walk:
 
     def mismatch(self, kind, path, detail, node):
         if any(x.startswith("JoinedStr.") for x in path):
-            kind = "fstring/" + kind
+            kind = ("fstring-spec/" if "FormattedValue.format_spec" in path else "fstring/") + kind
         sig = f"ast-mismatch:{self.stage}:{kind}"
         ln = getattr(node, "lineno", None)
         if sig in self.seen:
@@ -276,6 +276,12 @@ class Walk:
                     line = self.lines[ln - 1] if ln and 0 < ln <= len(self.lines) else ""
                     if sv is not None and not line.isascii() and len(line[:sv].encode("utf-8")) == pv:
                         kind = "col_offset:characters-instead-of-utf8-bytes"
+                    elif sv is not None and getattr(p, "end_lineno", None) not in (None, getattr(p, "lineno", None)):
+                        # a node spanning several lines with non-ASCII text: CPython's byte offsets
+                        # of multi-line tokens also count bytes of the earlier lines
+                        span = self.lines[p.lineno - 1 : p.end_lineno]
+                        if not all(l.isascii() for l in span):
+                            kind = "col_offset:non-ascii-multiline-token"
                 self.mismatch(kind, path, f"{a}: Scenic {sv!r}, CPython {pv!r}", p)
                 setattr(s, a, pv)
 
@@ -353,6 +359,20 @@ def strip_class_annotations(tree, record=None):
 # judging one program
 
 
+def escape_signature(exc):
+    """escape:<Type>:<innermost scenic/pegen function>; an error raised by builtin compile()
+    on the translated tree (function compileTranslatedTree) also carries its message, since
+    there the function does not identify the construct."""
+    fn = where_raised(exc)
+    sig = f"escape:{type(exc).__name__}:{fn}"
+    if fn == "compileTranslatedTree":
+        import re
+
+        msg = re.sub(r"'[^']*'|\"[^\"]*\"", "Q", str(exc))
+        sig += ":" + re.sub(r"[^A-Za-z0-9_]+", "-", re.sub(r"\d+", "N", msg)).strip("-")[:60]
+    return sig
+
+
 def where_raised(exc):
     tb = traceback.extract_tb(exc.__traceback__)
     for fr in reversed(tb):
@@ -392,9 +412,23 @@ def token_at(e, lines):
     return m.group(0) if m else ("NEWLINE" if not rest.strip() else "OTHER")
 
 
-def at_keyword(e, lines):
-    """'@kw' if a generic message ("invalid syntax", "expected ':'") points at a keyword, else ''."""
+def stmt_at(tree, lineno):
+    """Type of the innermost statement of CPython's tree covering the line."""
+    best = None
+    for n in ast.walk(tree):
+        if isinstance(n, ast.stmt) and n.lineno <= lineno <= (n.end_lineno or n.lineno):
+            if best is None or (n.lineno, -(n.end_lineno or n.lineno)) >= (best.lineno, -(best.end_lineno or best.lineno)):
+                best = n
+    return type(best).__name__ if best is not None else "none"
+
+
+def at_keyword(e, lines, tree=None):
+    """'@kw' if a generic message ("invalid syntax", "expected ':'") points at a keyword; for a
+    specific message '@stmt:<type of the CPython statement at the error line>'; else ''."""
     if normalise_msg(getattr(e, "msg", e)) not in ("invalid-syntax", "expected-Q"):
+        ln = getattr(e, "lineno", None)
+        if tree is not None and isinstance(ln, int):
+            return "@stmt:" + stmt_at(tree, ln)
         return ""
     t = token_at(e, lines)
     return "@" + t if t.isalpha() and t.islower() else ""
@@ -421,7 +455,7 @@ def judge(src, name="<string>"):
     if why:
         res["status"] = "precondition:" + why
         return res
-    lines = src.splitlines()
+    lines = src.split("\n")
     res["nodes"] = count_nodes(p_tree)
     # -- stage A: the parser
     try:
@@ -431,7 +465,7 @@ def judge(src, name="<string>"):
         text = lines[ln - 1].rstrip()[:160] if isinstance(ln, int) and 0 < ln <= len(lines) else ""
         res["violations"].append(
             (
-                "rejects-valid-python:parser:" + normalise_msg(getattr(e, "msg", e)) + at_keyword(e, lines),
+                "rejects-valid-python:parser:" + normalise_msg(getattr(e, "msg", e)) + at_keyword(e, lines, p_tree),
                 f"CPython compiles the program, Scenic's parser rejects it: {type(e).__name__}: {e} (line {ln}: {text!r})",
             )
         )
@@ -440,7 +474,7 @@ def judge(src, name="<string>"):
     except Exception as e:
         res["violations"].append(
             (
-                f"escape:{type(e).__name__}:{where_raised(e)}",
+                escape_signature(e),
                 f"Scenic's parser raised {type(e).__name__}: {str(e)[:200]} on a program CPython compiles",
             )
         )
@@ -467,7 +501,7 @@ def judge(src, name="<string>"):
         text = lines[ln - 1].rstrip()[:160] if isinstance(ln, int) and 0 < ln <= len(lines) else ""
         res["violations"].append(
             (
-                "rejects-valid-python:compiler:" + normalise_msg(getattr(e, "msg", e)) + at_keyword(e, lines),
+                "rejects-valid-python:compiler:" + normalise_msg(getattr(e, "msg", e)) + at_keyword(e, lines, p_tree),
                 f"CPython compiles the program, Scenic's compiler rejects it: {type(e).__name__}: {e} (line {ln}: {text!r})",
             )
         )
@@ -476,7 +510,7 @@ def judge(src, name="<string>"):
     except Exception as e:
         res["violations"].append(
             (
-                f"escape:{type(e).__name__}:{where_raised(e)}",
+                escape_signature(e),
                 f"Scenic's compiler raised {type(e).__name__}: {str(e)[:200]} on a program CPython compiles",
             )
         )
@@ -549,7 +583,7 @@ def judge_embedded(where, scenic_src, python_src):
         res["status"] = "rejected"
         return res
     except Exception as e:
-        res["violations"].append((f"escape:{type(e).__name__}:{where_raised(e)}", f"parser raised {type(e).__name__}: {e}\n{scenic_src}"))
+        res["violations"].append((escape_signature(e), f"parser raised {type(e).__name__}: {e}\n{scenic_src}"))
         res["status"] = "crashed"
         return res
     s_top = s_tree.body[0]
@@ -572,7 +606,7 @@ def judge_embedded(where, scenic_src, python_src):
         res["violations"].append((f"ast-mismatch:parser:{where}-fragment-not-parsed-as-one-expression", f"the fragment did not become the {where}'s operand (got {type(s_top).__name__}) in\n{scenic_src}"))
         res["status"] = "violating"
         return res
-    w = Walk(scenic_src.splitlines(), "parser")
+    w = Walk(scenic_src.split("\n"), "parser")
     if len(s_sub) != len(p_sub):
         w.mismatch("body:length", [where], f"{len(s_sub)} vs {len(p_sub)} statements", p_top)
     else:
@@ -592,7 +626,7 @@ def judge_embedded(where, scenic_src, python_src):
     except (ScenicSyntaxError, SyntaxError):
         res["compiled"] = False  # e.g. `yield` in a behavior: documented error
     except Exception as e:
-        res["violations"].append((f"escape:{type(e).__name__}:{where_raised(e)}", f"compiler raised {type(e).__name__}: {e}\n{scenic_src}"))
+        res["violations"].append((escape_signature(e), f"compiler raised {type(e).__name__}: {e}\n{scenic_src}"))
     if res["violations"]:
         res["status"] = "violating"
     return res
